@@ -63,7 +63,11 @@ def big_case(rng):
     shape = gen.random_shape(rng, rng.randrange(40, 90))
     c = make(rng, shape, True)
     def fatten(t):
-        t[0].append(["blob", json.dumps("x" * rng.randrange(50, 400) + "é\n\t")])
+        blob = ["blob", json.dumps("x" * rng.randrange(50, 400) + "é\n\t")]
+        if c["cls"] == "node":
+            t[0].insert(len(t[0]) - 1, blob)      # Node stores `name` after the keyword attributes: it stays last
+        else:
+            t[0].append(blob)
         for k in t[1]:
             fatten(k)
     fatten(c["tree"])
